@@ -133,7 +133,8 @@ def run_property(prop, tier="quick", seed=0, repo_root=None, only=None):
             obs = [o for o in obs if re.search(only, o.name)]
         for o in obs:
             o.prop = prop
-        solve_all(obs, timeout_s=ctx.timeout, workdir=ctx.workdir, jobs=int(os.environ.get("PYVC_JOBS", "12")))
+        solve_all(obs, timeout_s=ctx.timeout, workdir=ctx.workdir, jobs=int(os.environ.get("PYVC_JOBS", "12")),
+                  wait_all=(tier == "thorough"))
         known = load_known()
         # lemma dependencies: a result that used a lemma counts only if that lemma is discharged in this run
         by_name = {o.name: o for o in obs}
@@ -281,6 +282,7 @@ def run_property(prop, tier="quick", seed=0, repo_root=None, only=None):
                 "pyvc executor encoding of the Python subset (DESIGN 2.2)", "cvc5 1.0.3", "z3 5.1.0",
                 "map-loop rule and loop-invariant rule (induction over iterations)"}),
             by_backend=per_backend, solver_time_s=round(solver_time, 2),
+            decided_by_two_backends=sum(1 for o in obs if len(o.result.get("by") or []) >= 2),
             functions_under_contract=[i["function"] for i in ctx.fun_info if not i.get("unreached")],
             paths={i["function"]: i.get("paths") for i in ctx.fun_info},
             unreached=[dict(function=i["function"], reason=i["unreached"]) for i in unreached],
